@@ -505,7 +505,8 @@ func init() {
 		Corpus:       c11Corpus,
 		Check:        c11Check,
 		Describe:     c11Describe,
-		CaseTimeoutS: 60,
+		CaseTimeoutS: 30,
+		SoloTimeoutS: 120, // parsing and printing a path of a few segments takes microseconds
 		Assumptions: []string{
 			"reference readers in harness/refsyn written from the SVG 1.1 path grammar, PDF 32000-1 path operators and the Red Book arc/arcn semantics plus the ellipse procedures of the PS renderer",
 			"tolerances follow the number formats: 2*10^(1-Precision) relative for ToSVG (x4 with arcs), 2*10^-Precision absolute for ToPDF/ToPS, plus the ReplaceArcs bound of C03 for arcs in ToPDF",
